@@ -81,7 +81,9 @@ Definition run_C14 (op : Z) (args : list val) : val :=
                        end
                      else unconstrained;
                      vtext own]
-          | _ => VList [VErr 996; if secret_ok secret then VInt 0 else unconstrained]
+          | _ => VList [vres VBytes (sign_message E d c (message_hash sha256d msg_magic_default msg) 1);
+                        (* IMPL raised: only the error kind is compared *)
+                        if secret_ok secret then VInt 0 else unconstrained]
           end
       | None => bad_args
       end
